@@ -75,7 +75,7 @@ REFUSED = {'N', 'F'}
 def is_noop_step(kind, op, r):
     name = op.split(' ')[0]
     if kind == 'avl':
-        if name in ('get', 'has', 'low', 'len', 'empty', 'full', 'capq', 'gmut0', 'openro', 'fill'):
+        if name in ('get', 'has', 'low', 'len', 'empty', 'full', 'capq', 'gmut0', 'openro', 'fill', 'dbg'):
             return True
         return name in ('ins', 'rem') and r == 'N'
     if kind == 'hash':
@@ -93,17 +93,28 @@ def oracle_bytes_unchanged(cases, impl, init_digest=None, mode=None):
     n = 0
     for c in cases:
         prev = None
-        pending = False      # the buffer was extended and no mutable view has adopted the growth yet
+        # spare records not yet adopted by a mutable view (from_bytes_mut threads them into the free
+        # list and raises the capacity word - the one legitimate write of a refused operation)
+        h = c.header
+        persistent = (mode or h.get('mode', 'persistent')) == 'persistent'
+        pending = c.kind == 'avl' and 'cap' in h and 'nrec' in h and int(h['nrec']) > int(h['cap'])
+        live = persistent and str(h.get('keep', '0')) == '1' and 'raw' not in h
         for a in steps_of(impl, c.id):
             if a.get('r') == 'P':
                 break
             name = c.ops[a['i']].split(' ')[0]
             if name == 'ext':
-                pending = True
+                pending = True; live = False
             opens_mut = c.kind == 'avl' and name in ('ins', 'rem', 'gmut', 'gmut0', 'openmut')
-            adopting = pending and opens_mut
-            if opens_mut:
+            if name in ('openmut', 'openro'):
+                live = False
+            adopting = opens_mut and not live and pending
+            if adopting:
                 pending = False
+            if opens_mut:
+                live = True
+            if not persistent:
+                live = False
             if prev is not None and not adopting and is_noop_step(c.kind, c.ops[a['i']], a.get('r')):
                 n += 1
                 if a.get('d') != prev:
@@ -363,7 +374,7 @@ def oracle_pstr(cases, impl, props):
                 # with the recorded length known to fit the area (a handle was created by new(), or the
                 # buffer is still all zero) no view, reload or copy may panic
                 if 'C13' in props and plen is not None and not c.tags.get('expect_panic') \
-                        and op[0] in ('ro', 'asstr', 'size', 'copy', 'upper'):
+                        and op[0] in ('ro', 'asstr', 'size', 'copy', 'copysl', 'upper'):
                     out.append(Finding('oracle', c, a['i'], 'prefix: op "%s" panicked although the recorded length %d fits the %d payload bytes'
                                        % (op[0], plen, size - p)))
                 break
@@ -395,6 +406,9 @@ def oracle_pstr(cases, impl, props):
                 src = unhex(op[1])
                 keep = longest_fitting_prefix(src, plen)
                 cur = keep + bytes(plen - len(keep))
+            elif op[0] == 'copysl' and r == 'U' and plen is not None and 'C13' in props:
+                src = unhex(op[1]) if len(op) > 1 else b''
+                cur = src[:plen] + bytes(plen - len(src[:plen]))
             elif op[0] == 'upper' and cur is not None:
                 cur = bytes(b - 32 if 97 <= b <= 122 else b for b in cur)
             elif op[0] == 'asstr' and r.startswith('O') and 'C13' in props:
